@@ -299,6 +299,9 @@ def run_property(pid, tier, modname, cases, opts=None, level="model_checking", a
         zero_tests_on_solver_outputs_not_forked=int(stats.get('zero_test_kept', 0)),
         output_comparison_branches_cut=int(stats.get('output_branches_cut', 0)),
         genericity_assumptions_on_input_coefficients=int(stats.get('generic_assumed', 0)),
+        cvc5_crosscheck=dict(checked=int(stats.get('cvc5_checked', 0)), agree=int(stats.get('cvc5_agree', 0)),
+                             cvc5_unknown=int(stats.get('cvc5_unknown', 0)), disagree=int(stats.get('cvc5_disagree', 0)),
+                             errors=int(stats.get('cvc5_error', 0))),
         reachability_twins_sat=int(sum(r['reach'] for r in results)),
         functions_encoded=sorted(funcs),
         bounds=bounds or {},
@@ -325,8 +328,10 @@ def run_property(pid, tier, modname, cases, opts=None, level="model_checking", a
           "solver=%.1fs wall=%.1fs" % (pid, tier, len(results), paths, coverage['obligations'], coverage['discharged'],
                                        coverage['queries']['sat'], coverage['queries']['unknown'], len(known_hits),
                                        len(violations), coverage['solver_seconds'], time.time() - t0))
+    if stats.get('cvc5_disagree', 0):
+        print("INCONCLUSIVE: cvc5 disagrees with z3 on %d sampled queries" % stats['cvc5_disagree'])
     if violations:
         return EXIT_VIOLATION
-    if errors or inconclusive or unreproduced or vacuous:
+    if errors or inconclusive or unreproduced or vacuous or stats.get('cvc5_disagree', 0):
         return EXIT_INCONCLUSIVE
     return EXIT_OK
